@@ -981,15 +981,27 @@ Definition jle (a b : jv) : bool :=     (* a <= b on extended numbers *)
 Definition is_nan (a : jv) : bool := match a with JNaN => true | _ => false end.
 Definition jgt (a b : jv) : bool := negb (is_nan a) && negb (is_nan b) && negb (jle a b).   (* a > b *)
 
-(* check_theta *)
-Definition check_theta (b : binst) : option err :=
+(* values that can be compared with a float (`0 <= 'x'`, `None > 1`, `[1] > 1` raise TypeError) *)
+Definition jv_comparable (j : jv) : bool :=
+  match j with JNum _ | JInf _ | JNaN | JBool _ => true | _ => false end.
+
+(* check_theta: a theta that is not a number (set by hand / read from a dict) cannot be compared with the
+   bounds: TypeError (found by the bivlife bridges; before: ValueErr) *)
+Definition check_theta_cmp (b : binst) : option err :=
   match b_cls b with
   | None | Some Independence => Some ValueErr       (* `lower, upper = []` cannot unpack *)
+  | Some _ => if jv_comparable (b_theta b) then None else Some TypeErr
+  end.
+Definition check_theta_num (b : binst) : option err :=
+  match b_cls b with
+  | None | Some Independence => Some ValueErr
   | Some Clayton => if jle (JNum 0) (b_theta b) && jle (b_theta b) (JInf true) then None else Some ValueErr
   | Some Frank => if jle (JInf false) (b_theta b) && jle (b_theta b) (JInf true) && negb (jnum_eq (b_theta b) (JNum 0))
                   then None else Some ValueErr
   | Some Gumbel => if jle (JNum 1) (b_theta b) && jle (b_theta b) (JInf true) then None else Some ValueErr
   end.
+Definition check_theta (b : binst) : option err :=
+  match check_theta_cmp b with Some e => Some e | None => check_theta_num b end.
 
 Definition check_fit_biv (b : binst) : option err :=
   if theta_unset b then Some NotFitted else check_theta b.
@@ -1004,7 +1016,8 @@ Definition query_biv (b : binst) (k : bkind) (n : nat) (g : grng) : binst * grng
         | Some e => (b, g, ObsErr e)
         | None =>
         match b_tau b with
-        | JNone => (b, g, ObsErr TypeErr)                      (* None > 1: theta set by hand, tau left None *)
+        | JNone | JStr _ | JList _ | JDict _ | JSet _ =>
+            (b, g, ObsErr TypeErr)    (* None > 1 (theta set by hand, tau left None), 'x' > 1, [..] > 1: not comparable *)
         | tau =>
             if jgt tau (JNum 1) || jgt (JNum (-1)) tau
             then (b, g, ObsErr ValueErr)
@@ -1063,7 +1076,11 @@ Definition from_dict_biv (w : bworld) (c : option ctype) (j : jv) : bworld * res
           let '(w', r) := new_biv w None [("copula_type", ct)] in
           match r with
           | Err e => (w', Err e)
-          | Ok None => (w', Err AttributeErr)      (* None.theta = ... *)
+          | Ok None =>
+              (* `None.theta = copula_dict['theta']`: the right-hand side is evaluated first, so a dict without
+                 'theta' raises KeyError before the attribute store on None raises AttributeError
+                 (found by the bivlife bridge C14_bridge_from_dict; before: AttributeErr for every dict) *)
+              (w', Err (if has_key "theta" d then AttributeErr else KeyErr))
           | Ok (Some b) =>
               match lookup "theta" d, lookup "tau" d with
               | Some th, Some ta => (w', Ok (setb_tau ta (setb_theta th b)))
